@@ -1586,6 +1586,10 @@ fn c13_injector_clause(rng: &mut Rng, id: String, rep: &mut Report) {
     w.shutdown();
 }
 
+fn snap_pattern_of(snap: &nucleo::Snapshot<Payload>) -> String {
+    format!("{:?}", snap.pattern().column_pattern(0).atoms)
+}
+
 /// an event loop that only ticks when notified; the monitor flags the moment it is stuck
 fn c13_event_loop(rng: &mut Rng, id: String, rep: &mut Report) {
     reset_ctl(true);
@@ -1630,7 +1634,7 @@ fn c13_event_loop(rng: &mut Rng, id: String, rep: &mut Report) {
     let mut ticks = 0u64;
     let mut idle_rounds = 0;
     let mut injectors_done = false;
-    let mut edits_left = rng.range(0, 3);
+    let mut edits_left = rng.range(0, 5);
     let mut config_calls_left = rng.range(0, 3);
     loop {
         let got = {
@@ -1647,7 +1651,11 @@ fn c13_event_loop(rng: &mut Rng, id: String, rep: &mut Report) {
         if got > 0 || last.is_none() {
             idle_rounds = 0;
             if edits_left > 0 && rng.chance(1, 6) {
-                let t = format!("{}{}", w.texts[0], rng.pick(&['o', 'a', ' ']));
+                // a typed character, or the whole query deleted (possibly while the run for the previous edit is still going)
+                let t = if !w.texts[0].is_empty() && rng.chance(1, 3) { String::new() } else { format!("{}{}", w.texts[0], rng.pick(&['o', 'a', ' '])) };
+                if t.is_empty() {
+                    rep.count("c13.event-loop-query-deleted");
+                }
                 w.edit(0, &t);
                 edits_left -= 1;
             }
@@ -1701,10 +1709,32 @@ fn c13_event_loop(rng: &mut Rng, id: String, rep: &mut Report) {
                 "lost-wake-up",
                 "event-loop".into(),
                 jobj! {"problem" => "the event loop is idle, no run is pending, its last tick reported running=true and no notify followed",
-                       "case_id" => id, "tick_begin_stamp" => begin, "events_tail" => J::Arr(tail)},
+                       "case_id" => id.clone(), "tick_begin_stamp" => begin, "events_tail" => J::Arr(tail)},
             );
         }
-        // independent of the status: the finished results must be what a final tick shows
+        // "an event loop that only ticks when notified always gets to see the finished results": the loop is idle for good now
+        // (writers done, no run pending, no notification outstanding); if its last tick said that nothing is running, what it
+        // shows is final and has to be the result for everything that was injected and typed
+        if !st.running {
+            let injected = w.handles[k].inj.injected_items();
+            w.invoked.lock().unwrap().insert(w.cur, injected);
+            let (_, expected) = w.expected_quiescent();
+            let snap = w.nucleo.as_ref().unwrap().snapshot();
+            let got: Vec<(u32, u32)> = snap.matches().iter().map(|m| (m.score, m.idx)).collect();
+            rep.count("c13.event-loop-final-results-compared");
+            if got != expected || snap.item_count() != injected {
+                let msg = format!(
+                    "the event loop has gone idle after a tick with running=false; its snapshot shows item_count {} and {} matches for pattern {:?}, the finished results are {} items and {} matches for {:?}",
+                    snap.item_count(),
+                    got.len(),
+                    snap_pattern_of(snap),
+                    injected,
+                    expected.len(),
+                    w.texts[0]
+                );
+                rep.violation("C13", "event-loop-never-saw-the-finished-results", "event-loop".into(), jobj! {"problem" => msg, "case_id" => id.clone()});
+            }
+        }
     }
     while !w.handles.is_empty() {
         w.drop_injector(0);
